@@ -224,6 +224,8 @@ def run(chk: Check):
     rule_h2(chk, ir)
     rule_h3(chk, tr.interp, ir)
     rule_h4(chk, ir)
+    from .c01 import rule_result_span
+    rule_result_span(chk, ir)
     # the subprocess forms, the p-string flag and the backtick lexeme are C05 constructs: their own rule sets (C06 P1-P4,
     # C14 N2, C09 K6) are necessary conditions of C05 and are evaluated here under their own rule ids
     from . import c06, c09
